@@ -66,6 +66,23 @@ def rule_rule(c, prog):
                 existing = r["lid"]
     if existing is None:
         raise core.AnchorMissing("rewrite_refs: first loop does not populate a set local")
+    # both passes look at every property value of every cloned instance: no adaptor that ends an iteration early, no
+    # `continue` / `break` / early return that skips a cloned instance as a whole
+    TERMINATING = {"take_while", "map_while", "take", "skip", "skip_while", "find", "find_map", "position", "nth", "last", "step_by", "scan", "try_for_each", "try_fold", "any", "all"}
+    for idx, (node, lp) in enumerate(outer):
+        inst = f"pass{idx + 1}:visits-every-value"
+        early = [x for x in core.walk(lp[2]) if x.get("k") == "MethodCall" and x["m"] in TERMINATING and "Iterator" in (core.callee_generic(x) or "") and any("properties" in core.place_root(y)[1] for y in core.walk(x["recv"]) if y.get("k") in ("Field", "MethodCall"))]
+        inner_nodes = set()
+        for n2, f2 in _for_loops(lp[2]):
+            inner_nodes |= {id(y) for y in core.walk(n2)}     # the inner loop with its own desugared `break`
+        skips = [x for x in core.walk(lp[2], into_closures=False) if x.get("k") in ("Continue", "Break") and id(x) not in inner_nodes]
+        if early:
+            c.violation(R, f"pass{idx + 1}|stops-early|{early[0]['m']}", f"rewrite_refs, pass {idx + 1}: `{early[0]['m']}` ends the walk over an instance's property values at the first one it rejects; Ref values after it are not looked at (a live outside reference that follows a null or dangling one is then nulled although the destination contains its target)", core.loc(early[0]), instance=inst)
+            return
+        if skips:
+            c.violation(R, f"pass{idx + 1}|skips-instance", f"rewrite_refs, pass {idx + 1}: a cloned instance can be skipped as a whole (`{skips[0]['k'].lower()}` in the loop over the cloned set): its Ref properties are neither rewritten nor nulled — whatever the skip is keyed on (e.g. what the first instance of its class looked like) is not `this instance has no Ref`", core.loc(skips[0]), instance=inst)
+            return
+        c.ok(R, inst)
     # loop 1 must not assign property values (no rewrite before the existing set is complete)
     if any(x.get("k") in ("Assign", "AssignOp") for x in core.walk(l1[2])):
         c.violation(R, "loop1|assign", "the first pass of rewrite_refs assigns values: the set of pre-existing destination refs must be complete before any rewrite", core.loc(outer[0][0]), instance="loop1:read-only")
